@@ -44,6 +44,9 @@ def main():
             for ed in m["edits"]:
                 p = os.path.join(dst, ed["file"])
                 s = open(p).read()
+                if ed.get("all") and s.count(ed["old"]) >= 1:
+                    open(p, "w").write(s.replace(ed["old"], ed["new"]))
+                    continue
                 if s.count(ed["old"]) != 1:
                     print(f"MUTANT {m['name']}: edit does not apply uniquely ({s.count(ed['old'])} matches) in {ed['file']}")
                     failed += 1
